@@ -418,6 +418,7 @@ class Runner:
             extra['raise_conditions'] = dict(con.raises or {})
         reproduced = False
         detail = (model_text or '')[:3000]
+        extra['let'] = dict(con.let)
         rp = self.write_replay(o.name, o.clause, kind, inputs, u.harness, detail, extra)
         if inputs is not None and u.harness is not None and o.kind in ('ensures', 'raises'):
             verdict = native_replay(os.path.join(VERIF, rp))
